@@ -2,7 +2,7 @@
 import ast
 
 from engine.index import norm, walk_own
-from .common import calls_named
+from .common import calls_named, before
 
 EXPLANATION = (
     "Round-trip equality of values depends on typing introspection, casts and json at run time and is NOT decided. What is "
@@ -243,7 +243,7 @@ def r5(ctx):
         # both stores precede the wrapping of the value into an enum instance
         wrap = [s for s in ast.walk(loops[0]) if isinstance(s, ast.Expr) and isinstance(s.value, ast.Call) and norm(s.value.func) == "setattr"]
         st = [s for s in ast.walk(loops[0]) if isinstance(s, ast.Assign) and isinstance(s.targets[0], ast.Subscript)]
-        ok = ok and len(wrap) == 1 and all(s.lineno < wrap[0].lineno for s in st)
+        ok = ok and len(wrap) == 1 and all(before(mt, s, wrap[0]) for s in st)
     else:
         stores = {}
     ctx.check(ok, "C15.R5", mt, "_value2name[v] = name and _name2value[name] = v are filled in one loop from the same pair (before the member is wrapped)",
